@@ -26,6 +26,27 @@ fn relc(z: C, r: f64) -> Q {
     }
 }
 
+/// ln|z| without rounding |z| first: next to the unit circle through ln_1p(|z|^2 - 1) / 2, elsewhere on the components
+/// scaled by a power of two (exact), so that neither an overflowing nor a subnormal modulus is formed
+pub fn ln_modulus(re: f64, im: f64) -> f64 {
+    let (m, s) = if re.abs() >= im.abs() { (re.abs(), im.abs()) } else { (im.abs(), re.abs()) };
+    if m == 0.0 || !m.is_finite() {
+        return re.hypot(im).ln();
+    }
+    let excess = (m - 1.0) * (m + 1.0) + s * s;
+    if m > 0.5 && m < 2.0 && excess.abs() < 0.5 {
+        return 0.5 * excess.ln_1p();
+    }
+    // m = f * 2^k with 1 <= f < 2 (subnormals included)
+    let k = m.log2().floor() as i32;
+    let down = |x: f64| x * 2f64.powi(-(k / 2)) * 2f64.powi(-(k - k / 2));
+    down(m).hypot(down(s)).ln() + k as f64 * std::f64::consts::LN_2
+}
+
+fn ln_acc(z: C) -> C {
+    C::new(ln_modulus(z.re, z.im), z.im.atan2(z.re))
+}
+
 fn approx(q: Q, z: C) -> R {
     if !finite(z) || z.norm() > 1e300 {
         return RV::Unspec("U3: non-finite complex result (or within rounding of overflow)");
@@ -207,19 +228,19 @@ pub fn eval(n: &Node, at: C) -> R {
                     if on_neg_real_cut(z) {
                         return RV::Unspec("U3: ln on its branch cut");
                     }
-                    approx(q, z.ln())
+                    approx(q, ln_acc(z))
                 }
                 Lb => {
                     if on_neg_real_cut(z) {
                         return RV::Unspec("U3: lb on its branch cut");
                     }
-                    approx(q, z.ln() / std::f64::consts::LN_2)
+                    approx(q, ln_acc(z) / std::f64::consts::LN_2)
                 }
                 Log => {
                     if on_neg_real_cut(z) || on_neg_real_cut(vs[1]) || vs[1] == C::new(1.0, 0.0) {
                         return RV::Unspec("U3: log on a branch cut");
                     }
-                    approx(q, z.ln() / vs[1].ln())
+                    approx(q, div_scaled(ln_acc(z), ln_acc(vs[1])))
                 }
                 Exp => approx(q, z.exp()),
                 Exp2 => approx(q, (z * std::f64::consts::LN_2).exp()),
